@@ -19,7 +19,7 @@ from pyvc.spec import And, Implies, Not, Or
 class add_to_cache:
     name = "dictionary.Dictionary._add_to_cache"
     func = "dateparser.languages.dictionary.Dictionary._add_to_cache"
-    props = ["C03"]
+    props = ["C03", "C04", "C05", "C06"]  # every translation goes through these caches
 
     @staticmethod
     def cases():
@@ -636,3 +636,92 @@ class get_dictionary_current_settings:
 
 
 CONTRACTS += [get_dictionary_current_settings]
+
+
+class settings_registry_keeps_default:
+    """however many different settings dicts were seen before (here 1,500 distinct RELATIVE_BASE
+    values, more than any internal table is likely to be sized for), `Settings()` is still the one
+    module-level default object `dateparser.conf.settings` - search_dates relies on re-initialising
+    exactly that object to undo its own writes to RELATIVE_BASE - and a dict seen early still
+    yields an instance with its own values."""
+
+    name = "conf.Settings/registry-keeps-the-default-instance"
+    func = "dateparser.utils.registry / dateparser.conf.Settings"
+    props = ["C03"]
+    concrete_samples = 1
+
+    @staticmethod
+    def cases():
+        return [dict(n=1500)]
+
+    @staticmethod
+    def setup(inp, case):
+        import datetime
+
+        from dateparser.conf import Settings
+        from dateparser.conf import settings as default_settings
+
+        B0 = datetime.datetime(2001, 1, 1)
+
+        def run():
+            d0 = Settings()
+            early = default_settings.replace(mod_settings={"RELATIVE_BASE": B0}, RELATIVE_BASE=B0)
+            for i in range(case["n"]):
+                b = B0 + datetime.timedelta(minutes=i + 1)
+                default_settings.replace(mod_settings={"RELATIVE_BASE": b}, RELATIVE_BASE=b)
+            again = default_settings.replace(mod_settings={"RELATIVE_BASE": B0}, RELATIVE_BASE=B0)
+            return (d0 is default_settings, Settings() is default_settings, again.RELATIVE_BASE == B0,
+                    early.RELATIVE_BASE == B0, Settings().RELATIVE_BASE is None or
+                    Settings().RELATIVE_BASE == default_settings.RELATIVE_BASE)
+
+        return run, (), {}, {}
+
+    @staticmethod
+    def post(case, g, out):
+        if not out.ok:
+            return {"no-exception": False}
+        a, b, c, d, e = out.value
+        return {"no-exception": True, "Settings()-is-the-module-default-before": a,
+                "Settings()-is-still-the-module-default-after-many-dicts": b,
+                "an-early-dict-still-gets-its-own-values": c and d}
+
+
+class default_parser_config:
+    """dateparser.parse() without languages/locales/region/settings uses the module-level
+    `_default_parser`: C03 exempts parsers created with try_previous_locales or a detection
+    callback from history independence, so the shared default parser must be neither."""
+
+    name = "dateparser._default_parser/remembers-nothing"
+    func = "dateparser.__init__._default_parser"
+    props = ["C03", "C13"]
+    concrete_samples = 1
+
+    @staticmethod
+    def cases():
+        return [{}]
+
+    @staticmethod
+    def setup(inp, case):
+        import dateparser
+
+        def run():
+            p = dateparser._default_parser
+            before = (p.try_previous_locales, p.detect_languages_function, len(p.previous_locales),
+                      p.languages, p.locales, p.region, p.use_given_order)
+            return before, len(p.previous_locales), p.languages
+
+        return run, (), {}, {}
+
+    @staticmethod
+    def post(case, g, out):
+        if not out.ok:
+            return {"no-exception": False}
+        before, n_prev, langs = out.value
+        return {"no-exception": True,
+                "no-previous-locales-memory": before[0] is False and before[2] == 0 and n_prev == 0,
+                "no-detection-callback": before[1] is None,
+                "no-fixed-language-selection": before[3] is None and before[4] is None
+                and before[5] is None and langs is None and before[6] is False}
+
+
+CONTRACTS += [settings_registry_keeps_default, default_parser_config]
